@@ -928,26 +928,32 @@ func checkGateway(c GWCase) error {
 		init      int
 		overRead  int // side that reads the over-limit part; -1: none
 	}
-	plans := make([]stepPlan, len(c.Steps))
-	for i, st := range c.Steps {
-		k := gwbyName(st.RPC)
-		if k == nil {
-			return stats.Failf("", "harness: unknown gateway rpc %q", st.RPC)
-		}
-		p := stepPlan{overRead: -1}
-		if st.Init == "b" {
-			p.init = 1
-		}
-		over := st.Over && k.over
-		p.req, p.full = k.build(newRng(c.Seed, fmt.Sprint("gw", i)), st.N, st.Fat, over)
-		if over {
-			p.overRead = p.init
-			if k.overReq {
-				p.overRead = 1 - p.init
+	// each side gets its own instances of the expected objects (ReadResponse decodes into
+	// the initiator's request object)
+	var sidePlans [2][]stepPlan
+	for side := 0; side < 2; side++ {
+		sidePlans[side] = make([]stepPlan, len(c.Steps))
+		for i, st := range c.Steps {
+			k := gwbyName(st.RPC)
+			if k == nil {
+				return stats.Failf("", "harness: unknown gateway rpc %q", st.RPC)
 			}
+			p := stepPlan{overRead: -1}
+			if st.Init == "b" {
+				p.init = 1
+			}
+			over := st.Over && k.over
+			p.req, p.full = k.build(newRng(c.Seed, fmt.Sprint("gw", i)), st.N, st.Fat, over)
+			if over {
+				p.overRead = p.init
+				if k.overReq {
+					p.overRead = 1 - p.init
+				}
+			}
+			sidePlans[side][i] = p
 		}
-		plans[i] = p
 	}
+	plans := sidePlans[0]
 	var outs [2][]outcome
 	outs[0], outs[1] = make([]outcome, len(plans)), make([]outcome, len(plans))
 	ls := newLockstep(len(plans))
@@ -1011,8 +1017,8 @@ func checkGateway(c GWCase) error {
 	}
 	script := func(side int, t *gateway.Transport) func() error {
 		return func() error {
-			for i := range plans {
-				p := &plans[i]
+			for i := range sidePlans[side] {
+				p := &sidePlans[side][i]
 				o := &outs[side][i]
 				step(side, t, p, o)
 				expected := p.overRead >= 0 // either side may see an error on an over-limit step
